@@ -51,6 +51,7 @@ def _shape_gate(max_leaves):
 
 
 GATES = {
+    "object-histories": ["class:same-script-two-versions", "edit:leaf-version", "edit:leaf-script"],
     "monitors-ran": [
         "TapLeaf.hash", "TapBranch.hash", "TapBranch.path_hashes", "TapBranch.control_block", "TapLeaf.control_block",
         "ControlBlock.serialize", "ControlBlock.parse", "ControlBlock.merkle_root", "ControlBlock.external_pubkey",
@@ -874,6 +875,62 @@ def duplicate_leaf_case(ctx, rng, serial):
     check_memo(ctx)
 
 
+def same_script_two_versions_case(ctx, rng, serial):
+    """The same script under two different leaf versions in one tree: each leaf has its own path and each control
+    block must lead to the root with its own version (decided by the control_block contract)."""
+    from buidl.pecc import S256Point
+
+    a = _gen_leaf(rng, serial, 34, 0xC0)
+    b = (0xC2 + 2 * (serial % 3), a[1], a[2])
+    other = _gen_leaf(rng, serial + 1, 35, 0xC0)
+    order = [[a, b, other], [b, other, a], [other, a, b]][serial % 3]
+    shape = rt.all_shapes(3)[serial % 2]
+    lib, libleaves, ref = _build_lib_tree(shape, order)
+    ipt = ec.mul(rng.randrange(1, ec.N))
+    internal = S256Point(ipt[0], ipt[1])
+    ctx.count("class:same-script-two-versions")
+    outcome(lib.hash)
+    for leaf in libleaves:
+        outcome(lib.control_block, internal, leaf)
+    check_memo(ctx)
+
+
+def edit_history_case(ctx, rng, serial):
+    """History on ONE tree object: ask (hash, control blocks), edit a descendant leaf in place, ask again.
+    The contracts compare every answer with the reference computed from the tree *as it is now*, so an answer
+    served from state remembered before the edit is a violation."""
+    from buidl.pecc import S256Point
+    from buidl.taproot import TapScript
+
+    nl = 2 + serial % 3
+    shape = rt.all_shapes(nl)[serial % len(rt.all_shapes(nl))]
+    leaves = [_gen_leaf(rng, serial * 8 + i, 30 + i, 0xC0) for i in range(nl)]
+    lib, libleaves, ref = _build_lib_tree(shape, leaves)
+    ipt = ec.mul(rng.randrange(1, ec.N))
+    internal = S256Point(ipt[0], ipt[1])
+    outcome(lib.hash)
+    outcome(lib.external_pubkey, internal)
+    for leaf in libleaves:
+        outcome(lib.control_block, internal, leaf)
+    victim = libleaves[rng.randrange(nl)]
+    if serial % 2:
+        victim.tapleaf_version = 0xC2 + 2 * (serial % 5)
+        ctx.count("edit:leaf-version")
+    else:
+        fresh = _gen_leaf(rng, 50000 + serial, 41, 0xC0)
+        victim.tap_script = TapScript(list(fresh[2]))
+        ctx.count("edit:leaf-script")
+    before = ctx.violation_count
+    outcome(lib.hash)
+    outcome(lib.external_pubkey, internal)
+    for leaf in libleaves:
+        co = outcome(lib.control_block, internal, leaf)
+        if co[0] == "ok" and co[1] is not None:
+            outcome(co[1].external_pubkey, leaf.tap_script)
+    ctx.monitor("edit-history")
+    ctx.case(("edit-history", serial, rt.shape_key(shape)))
+
+
 def _run_repo_tests(ctx, names):
     """Thorough tier only: the repository's own test modules executed under the installed contracts
     (an additional workload; a failing test is noted, never a verdict by itself)."""
@@ -906,6 +963,9 @@ def run_shard(desc, ctx):
             return
         one_tree(ctx, ctx.rng("tree", serial), shape, serial, ctx.tier)
     duplicate_leaf_case(ctx, ctx.rng("dup"), idx)
+    for k in range(2 if ctx.tier == "quick" else 12):
+        same_script_two_versions_case(ctx, ctx.rng("twoversions", k), idx * 16 + k)
+        edit_history_case(ctx, ctx.rng("edit", k), idx * 16 + k)
     if not ctx.timed_out:
         ctx.exhaustive.append("binary tree shapes with 1..%d leaves (every leaf of every tree)" % MAX_LEAVES[ctx.tier])
         if ctx.tier == "thorough":
